@@ -246,12 +246,14 @@ def body_batch(B, I):
     return True
 
 
-def make_batch(env):
-    law_axioms(env)
-    return cond_fn('rfi_batch', [('gp', 'Tuple[bool, bool, bool]'), ('perm', 'int'), ('k', 'int'),
-                                 ('byname', 'bool')], body_batch,
-                   pre=['0 <= perm <= 5', '1 <= k <= 3', 'gp[0] == gp[1] == gp[2]'],
-                   consts={'ri': 0})
+def make_batch(perm):
+    def make(env):
+        law_axioms(env)
+        return cond_fn('rfi_batch', [('gp', 'Tuple[bool, bool, bool]'), ('k', 'int'),
+                                     ('byname', 'bool')], body_batch,
+                       pre=['1 <= k <= 3', 'gp[0] == gp[1] == gp[2]'],
+                       consts={'ri': 0, 'perm': perm})
+    return make
 
 
 def body_lengths(B, I):
@@ -301,10 +303,11 @@ def conditions(tier):
             cs.append(Cond('law_array_form%d_ov%d' % (f, ov), make=make_law(f, False, ov),
                            replay=std_replay(body_law), timeout=400, modules=mods,
                            doc='plain array, positional channel form %d, explicit settings' % f))
-    cs.append(Cond('batch_vs_sequential', make=make_batch, replay=std_replay(body_batch),
-                   timeout=600, modules=mods,
-                   doc='several channels in one call == one at a time in reverse order, by name '
-                       'or position'))
+    for perm in range(6):
+        cs.append(Cond('batch_vs_sequential_p%d' % perm, make=make_batch(perm),
+                       replay=std_replay(body_batch), timeout=600, modules=mods,
+                       doc='several channels in one call (prefixes of channel order #%d) == one '
+                           'at a time in reverse order, by name or position' % perm))
     cs.append(Cond('argument_lengths', make=make_lengths, replay=std_replay(body_lengths),
                    timeout=120, modules=mods, doc='mismatching lengths -> ValueError'))
     return cs
